@@ -279,3 +279,43 @@ func TCPStates(pc net.Conn) string {
 	}
 	return out
 }
+
+// FdDiag reports what the process's descriptor table and its epoll instances
+// say about the descriptor of a harness-side connection: what the number refers
+// to now, how many bytes wait unread, and which epoll instances have it
+// registered. A reader parked on a descriptor that no epoll instance knows any
+// more has lost its descriptor to a foreign close. Diagnostics only.
+func FdDiag(pc net.Conn) string {
+	sc, ok := pc.(syscall.Conn)
+	if !ok {
+		return "n/a"
+	}
+	rc, err := sc.SyscallConn()
+	if err != nil {
+		return "n/a: " + err.Error()
+	}
+	out := ""
+	cerr := rc.Control(func(fd uintptr) {
+		link, _ := os.Readlink(fmt.Sprintf("/proc/self/fd/%d", fd))
+		var unread int32
+		_, _, e := syscall.Syscall(syscall.SYS_IOCTL, fd, 0x541B /* FIONREAD */, uintptr(unsafe.Pointer(&unread)))
+		out = fmt.Sprintf("fd %d -> %s, unread %d (errno %d)", fd, link, unread, e)
+		ents, _ := os.ReadDir("/proc/self/fdinfo")
+		for _, en := range ents {
+			b, err := os.ReadFile("/proc/self/fdinfo/" + en.Name())
+			if err != nil || !strings.Contains(string(b), "tfd:") {
+				continue
+			}
+			for _, l := range strings.Split(string(b), "\n") {
+				f := strings.Fields(l)
+				if len(f) >= 4 && f[0] == "tfd:" && f[1] == fmt.Sprint(fd) {
+					out += fmt.Sprintf("; registered in epoll fd %s: %s", en.Name(), strings.Join(f[2:], " "))
+				}
+			}
+		}
+	})
+	if cerr != nil {
+		out += " control: " + cerr.Error()
+	}
+	return out
+}
